@@ -269,6 +269,85 @@ fn analyze(p: &str) -> String {
     }
 }
 
+#[derive(Clone, Debug, Default, PartialEq, Eq)]
+struct Bits(u8);
+
+impl storage_layout_extractor::data::combine::Combine for Bits {
+    fn combine(self, other: Self) -> Self {
+        Bits(self.0 | other.0)
+    }
+    fn identity() -> Self {
+        Bits(0)
+    }
+}
+
+/// One DisjointSet operation from the forest described by the parameters, compared with a naive partition model.
+fn forest_step(p: &str) -> String {
+    use storage_layout_extractor::data::{disjoint_set::DisjointSet, vector_map::VectorMap};
+    let n = param(p, "n").unwrap_or(4) as usize;
+    let g = |k: &str, i: usize| param(p, &format!("{k}{i}")).unwrap_or(0);
+    let mut reps: Vec<Option<usize>> = Vec::new();
+    let mut data: Vec<Option<Bits>> = Vec::new();
+    for i in 0..n {
+        reps.push(if g("rp", i) == 1 { Some(g("rv", i) as usize) } else { None });
+        data.push(if g("dp", i) == 1 { Some(Bits(g("dv", i) as u8)) } else { None });
+    }
+    let root0 = |mut i: usize| {
+        for _ in 0..n {
+            if let Some(r) = reps[i] {
+                i = r;
+            }
+        }
+        i
+    };
+    let data0 = |i: usize| data[root0(i)].clone().unwrap_or(Bits(0)).0;
+    let rsize = reps.iter().filter(|x| x.is_some()).count();
+    let dsize = data.iter().filter(|x| x.is_some()).count();
+    let mut ds: DisjointSet<usize, Bits> = DisjointSet::verif_from_parts(
+        VectorMap::verif_from_parts(reps.clone(), rsize),
+        VectorMap::verif_from_parts(data.clone(), dsize),
+    );
+    let op = str_param(p, "op").unwrap_or_default();
+    let (a, b, d) = (param(p, "a").unwrap_or(0) as usize, param(p, "b").unwrap_or(0) as usize, param(p, "d").unwrap_or(0) as u8);
+    // expected classes / data after the operation
+    let (ra, rb) = (root0(a), root0(b));
+    let cls = |i: usize| match op.as_str() {
+        "union" => if root0(i) == rb { ra } else { root0(i) },
+        _ => root0(i),
+    };
+    let dat = |i: usize| match op.as_str() {
+        "union" => if cls(i) == ra { data0(a) | data0(b) } else { data0(i) },
+        "add_data" => if root0(i) == ra { data0(i) | d } else { data0(i) },
+        "set_data" => if root0(i) == ra { d } else { data0(i) },
+        _ => data0(i),
+    };
+    match op.as_str() {
+        "find" => { let _ = ds.find(&a); }
+        "union" => ds.union(&a, &b),
+        "add_data" => ds.add_data(&a, Bits(d)),
+        "set_data" => ds.set_data(&a, Bits(d)),
+        "get_data" => { let _ = ds.get_data(&a); }
+        "insert" => ds.insert(a),
+        "sets" => { let _ = ds.sets(); }
+        _ => {}
+    }
+    let mut bad = Vec::new();
+    let roots: Vec<usize> = (0..n).map(|i| ds.find(&i)).collect();
+    for i in 0..n {
+        for j in (i + 1)..n {
+            if (roots[i] == roots[j]) != (cls(i) == cls(j)) {
+                bad.push(format!("partition({i},{j})"));
+            }
+        }
+        let got = ds.get_data(&i).cloned().unwrap_or(Bits(0)).0;
+        if got != dat(i) {
+            bad.push(format!("data({i}): got {got} want {}", dat(i)));
+        }
+    }
+    format!("{{\"violates\": {}, \"op\": \"{}\", \"a\": {}, \"b\": {}, \"differences\": \"{}\", \"reps\": \"{:?}\"}}",
+        !bad.is_empty(), op, a, b, bad.join("; "), reps).replace("Some(", "S(")
+}
+
 fn main() {
     let args: Vec<String> = std::env::args().collect();
     if args.len() < 3 {
@@ -282,6 +361,7 @@ fn main() {
         "fork_first_visit" => fork_first_visit(&p),
         "jump_target_bits" => jump_target_bits(&p),
         "halting_opcode" => halting_opcode(&p),
+        "forest_step" => forest_step(&p),
         "analyze" => analyze(&p),
         "culled_size" => culled_size(&p),
         "fold_variant" => fold_variant(&p),
